@@ -4,6 +4,9 @@
 use super::*;
 use crate::patch::verif_h::{Pool, mk_hunk, Shape, mk_report, mk_named_fp};
 use crate::patch::unified::parser::verif_h::Sink;
+use std::borrow::Cow;
+use std::path::Path;
+use crate::patch::{FilePatch, FilePatchKind, TextFilePatch};
 
 /// H one-line-replacement hunks ("-x +y", no context) at stated lines 2, 12, 22, ...; `applied[h]` from the instance; line
 /// bytes symbolic (2-byte lines: letter + newline).  No parser is involved (reading a buffer of symbolic layout back through
@@ -84,6 +87,56 @@ pub fn rej_case<const H: usize>(applied: [bool; H], distinct: bool) {
     assert!(p == out.n, "the reject file holds more than the failed hunks");
     kani::cover!(true, "reject scan done");
     std::mem::forget(fp); std::mem::forget(rep);
+}
+
+/// C12 (iii), without parse_patch: the header lines the writer emits for a file patch built directly (concrete kind, rename flag,
+/// modes, hashes; names "f" / "g"), through the REAL formatter, are each accepted by the parser's own line parsers and say
+/// what the file patch says: the names, rename from/to, a line setting the old mode and one setting the new mode to the same
+/// values, the hashes, and /dev/null on the absent side.
+/// kind: 0 modify, 1 create, 2 delete.
+pub fn file_header_case(kind: u8, rename: bool, old_mode: Option<u32>, new_mode: Option<u32>, hashes: bool) {
+    use crate::patch::unified::parser::verif_h::{FmtSink, verif_classify_line};
+    use std::os::unix::fs::PermissionsExt;
+    let k = match kind { 1 => FilePatchKind::Create, 2 => FilePatchKind::Delete, _ => FilePatchKind::Modify };
+    let of: Cow<Path> = Cow::Borrowed(Path::new("f"));
+    let nf: Cow<Path> = Cow::Borrowed(Path::new(if rename { "g" } else { "f" }));
+    let fp: TextFilePatch = FilePatch { kind: k, old_filename: if kind == 1 { None } else { Some(of) }, new_filename: if kind == 2 { None } else { Some(nf) }, is_rename: rename,
+        old_permissions: old_mode.map(std::fs::Permissions::from_mode), new_permissions: new_mode.map(std::fs::Permissions::from_mode),
+        old_hash: if hashes { Some(&b"1234567"[..]) } else { None }, new_hash: if hashes { Some(&b"89abcde"[..]) } else { None }, hunks: Vec::new() };
+    let mut out = FmtSink::<200>::new();
+    let r = write_file_patch_header_to(&fp, &mut out);
+    assert!(r.is_ok());
+    std::mem::forget(r);
+    let b = out.bytes();
+    // walk the lines
+    let (mut seen_sep, mut seen_from, mut seen_to, mut seen_old, mut seen_new, mut seen_idx, mut seen_minus, mut seen_plus) = (false, false, false, false, false, false, false, false);
+    let mut p = 0;
+    let mut nlines = 0;
+    while p < b.len() {
+        let (code, val, rest) = verif_classify_line(&b[p..]);
+        assert!(code != 100, "a header line the writer emits is rejected by the parser");
+        assert!(rest < b.len() - p, "verif-infra: no progress");
+        match code {
+            7 => { assert!(!seen_sep && val == b'f' as u32, "diff --git line"); seen_sep = true; }
+            4 => { assert!(rename, "rename from without a rename"); seen_from = true; }
+            5 => { assert!(rename, "rename to without a rename"); seen_to = true; }
+            0 | 2 => { assert!(old_mode == Some(val), "the old mode changed by write-then-parse"); seen_old = true; }
+            1 | 3 => { assert!(new_mode == Some(val), "the new mode changed by write-then-parse"); seen_new = true; }
+            6 => { assert!(hashes && val == 707, "index line"); seen_idx = true; }
+            8 => { assert!(val == if kind == 1 { 0 } else { b'f' as u32 }, "--- line names the wrong file"); seen_minus = true; }
+            9 => { assert!(val == if kind == 2 { 0 } else if rename { b'g' as u32 } else { b'f' as u32 }, "+++ line names the wrong file"); seen_plus = true; }
+            _ => { assert!(false, "unexpected metadata line"); }
+        }
+        p = b.len() - rest;
+        nlines += 1;
+        assert!(nlines <= 9, "verif-infra: more lines than a header has");
+    }
+    assert!(seen_sep && seen_minus && seen_plus, "separator or name lines missing");
+    assert!(seen_from == rename && seen_to == rename, "rename lines");
+    assert!(seen_old == old_mode.is_some() && seen_new == new_mode.is_some(), "a mode of the file patch is not written");
+    assert!(seen_idx == hashes, "hashes not written");
+    kani::cover!(true, "header scanned");
+    std::mem::forget(fp);
 }
 
 include!(concat!(env!("VERIF_GEN"), "/rej_inst.rs"));
